@@ -532,7 +532,11 @@ pub fn stack_family() -> Vec<StackD> {
     f.push(StackD { name: "HVH gap-sig-gap / rails-in-period / gap-sig-gap, cut sizes 20/60/100", prim: (200, 300), layers: l, vias: vec![(80, 20), (20, 80)] });
     // two horizontal layers of different pitch (600 and 1200)
     let wide = LayerD { horiz: true, spec: vec![e(Gap, 200), e(Sig, 800), e(Gap, 200)], offset: 0, overlap: 0, cutsize: 40, flip: false };
-    f.push(StackD { name: "HVH gap-sig-gap pitch 600 / sig-gap / gap-sig-gap pitch 1200", prim: (200, 300), layers: vec![pat_b(h, 600), pat_a(v, 400), wide], vias });
+    f.push(StackD { name: "HVH gap-sig-gap pitch 600 / sig-gap / gap-sig-gap pitch 1200", prim: (200, 300), layers: vec![pat_b(h, 600), pat_a(v, 400), wide.clone()], vias: vias.clone() });
+    // an upper layer whose own pitch is smaller than the least common multiple of the same-direction pitches
+    // below it: 1200 under 600 (horizontal), and 400 under 600 (vertical, lcm 1200)
+    f.push(StackD { name: "HVH gap-sig-gap pitch 1200 / sig-gap / gap-sig-gap pitch 600", prim: (200, 300), layers: vec![wide, pat_a(v, 400), pat_b(h, 600)], vias: vias.clone() });
+    f.push(StackD { name: "VHV sig-gap pitch 400 / gap-sig-gap / gap-sig-gap pitch 600", prim: (200, 300), layers: vec![pat_a(v, 400), pat_b(h, 600), pat_b(v, 600)], vias });
     f
 }
 
